@@ -25,6 +25,8 @@ mod refcodec;
 mod rx_filters;
 mod refcrypt;
 mod rx_crypt;
+mod exercise;
+mod rx_walk;
 
 fn main() {
     let args: Vec<String> = std::env::args().collect();
@@ -55,6 +57,7 @@ fn main() {
         "filters" => rx_filters::run(&args[2], &args[3], &opts),
         "encoders" => rx_filters::run_encoders(&args[2], &args[3], &opts),
         "crypt" => rx_crypt::run(&args[2], &args[3], &opts),
+        "walk" => rx_walk::run(&args[2], &args[3], &opts),
         "cache" => rx_cache::run(&args[2], &args[3], &opts),
         "widths" => rx_font::run_widths(&args[2], &args[3], &opts),
         "cmap" => rx_font::run_cmap(&args[2], &args[3], &opts),
